@@ -86,7 +86,7 @@ RefViol(ev, ln) ==
     \o (IF named /\ \E i, j \in sysl : /\ i < j /\ log[i].c = "rename" /\ log[j].c \in {"write", "writev"} /\ log[j].o = log[i].o
                                        /\ ~\E a \in apil : i < a /\ a < j /\ log[a].c = "rot"     \* (a later output may use the name again)
         THEN <<[l |-> ln, prop |-> "C15,C13", ctx |-> Ctx(ev), what |-> "an output received data after it was renamed to its final name"]>> ELSE <<>>)
-    \o (IF ev.status = 0 /\ \E x \in Range(ev.outs) : ~x.final
+    \o (IF ev.status = 0 /\ \E x \in Range(ev.outs) : ~x.final /\ ~x.old      \* (a stale .part of a name that was never opened stays as it was)
         THEN <<[l |-> ln, prop |-> "C15", ctx |-> Ctx(ev), what |-> "a .part file is left after all outputs were closed"]>> ELSE <<>>)
     \o (IF ev.status # 0 THEN <<>>
         ELSE IF sc.target = "writer" THEN
@@ -97,7 +97,7 @@ RefViol(ev, ln) ==
                            \/ LET x == CHOOSE y \in OutOf(ev.outs, nm[o]) : TRUE IN
                               ~x.stream_ok \/ x.rest # 0 \/ x.chunks # exp[o]}
             IN IF bad = {} THEN <<>>
-               ELSE <<[l |-> ln, prop |-> "C14,C13", ctx |-> Ctx(ev),
+               ELSE <<[l |-> ln, prop |-> IF named THEN "C14,C13,C15" ELSE "C14,C13", ctx |-> Ctx(ev),      \* under a final name: not a complete output (C15)
                        what |-> "closed output is not one complete stream whose decompression equals the bytes written to it",
                        outputs |-> bad, outs |-> ev.outs, want |-> exp]>>
         ELSE
@@ -111,7 +111,7 @@ RefViol(ev, ln) ==
                 ELSE <<[l |-> ln, prop |-> "C14,C13,C01", ctx |-> Ctx(ev), what |-> "records read back from the outputs differ from the records buffered",
                         got |-> got, want |-> n]>>)
                \o (IF badfin = {} THEN <<>>
-                   ELSE <<[l |-> ln, prop |-> "C14,C13,C02", ctx |-> Ctx(ev), what |-> "an output is not a single complete stream holding a complete C-DNS file",
+                   ELSE <<[l |-> ln, prop |-> IF named THEN "C14,C13,C02,C15" ELSE "C14,C13,C02", ctx |-> Ctx(ev), what |-> "an output is not a single complete stream holding a complete C-DNS file",
                            outs |-> badfin]>>))
 
 KViol(ev, r, ln) ==
